@@ -16,6 +16,19 @@
                    datapoint in the window are absent.  The expected answer is computed here and exported with the
                    behaviour, so the replay's oracle is this module's `Answer`.
 
+   How a query finds the series of a selector (pkg/segment/query/metricsquery.go applyMetricsOperatorOnSegments): the
+   segments of one tags tree HOLDER (a directory that lives for a day or until a restart) are searched with one tags
+   search.  While the holder is open its complete tags tree is in memory (`tmem`); the copy on disk (`tdisk`) is written
+   by TagsFlush (timer, every 60 s), by a segment rotation and at shutdown.  The search uses the in-memory tree if the
+   request it looks at carries the shard id - only the request of the OPEN segment does, and rotated requests are listed
+   first.  UseMemWhenOpen = TRUE is the rule after repair 5b5e30d (any request of the group may carry the id); FALSE is
+   the pinned rule (first request only): as soon as the holder has a rotated segment the disk copy is used and a series
+   first put after the last tags flush is invisible.  For a regular expression on the metric name the candidate names
+   come from the segments' name lists: NamesFromAll = TRUE after repair e7a279d, FALSE = the names of the holder's OLDEST
+   segment only.  EngineAnswer applies these rules; AnswerComplete (EngineAnswer = Answer for every selector form and
+   window) holds for the repaired rules and is violated by either pinned rule (MC_MetricsLifecycle_tthfirst.cfg,
+   MC_MetricsLifecycle_namesfirst.cfg).
+
    The design statement TLC checks is NothingMoves: the three places partition the accepted datapoints at every step
    (no datapoint is in two places, none is dropped by a flush / rotation / restart), and a block never holds two
    streams of one series.  LoseOpenOnRestart = TRUE (a restart that forgets the open block: what a crash without the
@@ -25,16 +38,23 @@ CONSTANTS Series,            \* model series
           Groups,            \* sets of series that share a metric name (the name-only selector returns the whole group)
           MaxT,              \* times 1..MaxT
           MaxOps, MaxPuts, MaxRestarts,
-          LoseOpenOnRestart
+          LoseOpenOnRestart,
+          UseMemWhenOpen,    \* tags search uses the in-memory tree whenever the holder is open (repaired) / only if no segment of it is rotated
+          NamesFromAll       \* regex on the metric name: candidate names from all segments of the holder (repaired) / the oldest only
 VARIABLES open,      \* series -> set of times in the open in-memory block
           blocks,    \* sequence of flushed blocks of the open segment: each a function series -> set of times
           rotated,   \* set of <<s, t>> in rotated segments
           acc,       \* every accepted <<s, t>>
           last,      \* series -> last accepted time (per series, times increase)
+          tmem,      \* series in the in-memory tags tree of the current holder
+          tdisk,     \* series in the holder's tags tree files
+          hrot,      \* datapoints of the current holder's rotated segments
+          firstseg,  \* series that have a datapoint in the holder's oldest segment (rotated, else the open one)
           nops, nputs, nrestarts, hist
-vars == <<open, blocks, rotated, acc, last, nops, nputs, nrestarts, hist>>
+vars == <<open, blocks, rotated, acc, last, tmem, tdisk, hrot, firstseg, nops, nputs, nrestarts, hist>>
 Empty == [s \in Series |-> {}]
 Init == /\ open = Empty /\ blocks = <<>> /\ rotated = {} /\ acc = {} /\ last = [s \in Series |-> 0]
+        /\ tmem = {} /\ tdisk = {} /\ hrot = {} /\ firstseg = {}
         /\ nops = 0 /\ nputs = 0 /\ nrestarts = 0 /\ hist = <<>>
 Pts(f) == {<<s, t>> : s \in Series, t \in 1..MaxT} \cap {p \in Series \X (1..MaxT) : p[2] \in f[p[1]]}
 InBlocks == UNION {Pts(blocks[i]) : i \in 1..Len(blocks)}
@@ -42,24 +62,38 @@ Step(e) == /\ nops < MaxOps /\ nops' = nops + 1 /\ hist' = Append(hist, e)
 Put(s, t) == /\ nputs < MaxPuts /\ t > last[s]
              /\ open' = [open EXCEPT ![s] = @ \cup {t}] /\ acc' = acc \cup {<<s, t>>} /\ last' = [last EXCEPT ![s] = t]
              /\ nputs' = nputs + 1 /\ Step([op |-> "put", s |-> s, t |-> t])
-             /\ UNCHANGED <<blocks, rotated, nrestarts>>
+             /\ tmem' = tmem \cup {s}
+             /\ firstseg' = IF hrot = {} THEN firstseg \cup {s} ELSE firstseg
+             /\ UNCHANGED <<blocks, rotated, nrestarts, tdisk, hrot>>
 BlockFlush == /\ Pts(open) # {}
               /\ blocks' = Append(blocks, open) /\ open' = Empty
-              /\ Step([op |-> "blockflush"]) /\ UNCHANGED <<rotated, acc, last, nputs, nrestarts>>
+              /\ Step([op |-> "blockflush"]) /\ UNCHANGED <<rotated, acc, last, nputs, nrestarts, tmem, tdisk, hrot, firstseg>>
 SegRotate == /\ Pts(open) \cup InBlocks # {}
              /\ rotated' = rotated \cup Pts(open) \cup InBlocks /\ open' = Empty /\ blocks' = <<>>
-             /\ Step([op |-> "segrotate"]) /\ UNCHANGED <<acc, last, nputs, nrestarts>>
+             /\ hrot' = hrot \cup Pts(open) \cup InBlocks /\ tdisk' = tmem       \* the rotation writes the tags tree
+             /\ Step([op |-> "segrotate"]) /\ UNCHANGED <<acc, last, nputs, nrestarts, tmem, firstseg>>
 Restart == /\ nrestarts < MaxRestarts
            /\ rotated' = rotated \cup InBlocks \cup (IF LoseOpenOnRestart THEN {} ELSE Pts(open))
            /\ open' = Empty /\ blocks' = <<>> /\ nrestarts' = nrestarts + 1
+           /\ tmem' = {} /\ tdisk' = {} /\ hrot' = {} /\ firstseg' = {}    \* a new process opens a new holder; the old ones are complete on disk
            /\ Step([op |-> "restart"]) /\ UNCHANGED <<acc, last, nputs>>
+TagsFlush == /\ tdisk # tmem /\ tdisk' = tmem
+             /\ Step([op |-> "tagsflush"]) /\ UNCHANGED <<open, blocks, rotated, acc, last, nputs, nrestarts, tmem, hrot, firstseg>>
 Answer(S, a, b) == {p \in acc : p[1] \in S /\ a <= p[2] /\ p[2] <= b}
+\* what the engine's search rules return: datapoints of earlier holders are always found (their trees are complete on disk);
+\* datapoints of the current holder only for the series its tags search finds
+InHolder == Pts(open) \cup InBlocks \cup hrot
+TagsFound == IF UseMemWhenOpen \/ hrot = {} THEN tmem ELSE tdisk
+EngineAnswer(S, a, b) == {p \in Answer(S, a, b) : p \in InHolder => p[1] \in TagsFound}
+\* regex on the metric name over the group G: candidate names = groups with a series in the segments consulted
+NameKnown(G) == IF NamesFromAll THEN TRUE ELSE G \cap firstseg # {}
+EngineRegexAnswer(G, a, b) == {p \in EngineAnswer(G, a, b) : p \in InHolder => NameKnown(G)}
 Query(S, a, b) == /\ acc # {} /\ a <= b
                   /\ Step([op |-> "query", sel |-> S, a |-> a, b |-> b, expect |-> Answer(S, a, b)])
-                  /\ UNCHANGED <<open, blocks, rotated, acc, last, nputs, nrestarts>>
+                  /\ UNCHANGED <<open, blocks, rotated, acc, last, nputs, nrestarts, tmem, tdisk, hrot, firstseg>>
 Selectors == {{s} : s \in Series} \cup Groups
 Next == \/ \E s \in Series, t \in 1..MaxT : Put(s, t)
-        \/ BlockFlush \/ SegRotate \/ Restart
+        \/ BlockFlush \/ SegRotate \/ Restart \/ TagsFlush
         \/ \E S \in Selectors, a, b \in 0..(MaxT + 1) : Query(S, a, b)
 Spec == Init /\ [][Next]_vars
 Stored == Pts(open) \cup InBlocks \cup rotated
@@ -67,4 +101,6 @@ NothingMoves == /\ Stored = acc
                 /\ Pts(open) \cap InBlocks = {} /\ Pts(open) \cap rotated = {} /\ InBlocks \cap rotated = {}
                 /\ \A i, j \in 1..Len(blocks) : i # j => Pts(blocks[i]) \cap Pts(blocks[j]) = {}
 AnswerIsStored == \A S \in Selectors, a, b \in 0..(MaxT + 1) : Answer(S, a, b) \subseteq Stored
+AnswerComplete == /\ \A S \in Selectors : EngineAnswer(S, 0, MaxT + 1) = Answer(S, 0, MaxT + 1)
+                  /\ \A G \in Groups : EngineRegexAnswer(G, 0, MaxT + 1) = Answer(G, 0, MaxT + 1)
 =============================================================================
